@@ -16,6 +16,9 @@ ASSUMPTIONS = ["metadata is compared as 'every user key is present with an equal
                "(pyarrow is not installed; the property conditions on it)"]
 
 
+STALE = [[]]
+
+
 def histories(rng, tier):
     n = 220 if tier == 'quick' else 1500
     out = []
@@ -25,7 +28,9 @@ def histories(rng, tier):
         h = [c.line()]
         for _ in range(rng.randint(1, 5)):
             h.append(gen.upd_line(rng, c, focus=focus))
-        keys = rng.sample(['AKEY', 'BKEY', 'LONGERKEYNAME', 'X1'], rng.randint(0, 3))
+        # (user keywords, some beginning like a reserved FITS keyword without being one: seeded change C03i)
+        keys = rng.sample(['AKEY', 'BKEY', 'LONGERKEYNAME', 'X1', 'GCOUNTS', 'ZVALUE', 'TFORMAT', 'BSCALE_APPLIED',
+                           'PCOUNTS'], rng.randint(0, 3))
         for k in keys:
             h.append('meta m k=%s v=%s' % (k, rng.choice(['12', '-3', 'hello', 'A_B'])))
         if rng.random() < 0.15:
@@ -36,11 +41,16 @@ def histories(rng, tier):
                     or c.kind == 'wide' and 'WWIDTH' in stale or c.kind == 'rec' and 'PRIMARY' in stale):
                 for k in stale:
                     h.append('meta m k=%s v=%s' % (k, 'a' if k == 'PRIMARY' else rng.choice(['1', '2'])))
+                STALE[0] = list(stale)
         comp = rng.choice(['0', '1'])
         h += ['write m f=f1 compress=%s' % comp, 'fitsraw f=f1', 'covread f=f1', 'covmask m',
               'read r=r f=f1', 'info r', 'state r', 'vals r', 'valid r', 'state m']
         for k in keys:
             h += ['getmeta r k=%s' % k]
+        # writing a map leaves ITS metadata alone, whatever the writer does with the header (seeded change C09i)
+        for k in keys + STALE[0]:
+            h += ['getmeta m k=%s' % k]
+        STALE[0] = []
         # partial reads
         for _ in range(rng.randint(1, 3)):
             k = rng.randint(1, 4)
